@@ -53,7 +53,7 @@ CHECKS = {
     ),
     "C08": (
         "exhaustive tag-universe grid + Hypothesis specs/compressed tag sets against a rule predicate over a packaging-decided interpreter grid",
-        "37 requires_python shapes (incl. unions of two and of three or more ranges one branch of which ends exactly on a tag's X.Y) x 5 implementation/gil settings x every single (python, abi) tag of the stated universe (170 python tags x ~14 ABIs incl. flag combinations m/d/u/t/td, prefix look-alikes such as cp31/cp312, pypy/pyston ABIs) decided exhaustively, plus generated requires_python texts with compressed tag sets; verdict and the first three score components must equal the statement's rule evaluated on the dense interpreter grid X.Y.Z (Z<=40).",
+        "40 requires_python shapes (incl. upper-bound-first spellings, unions of two and of three or more ranges one branch of which ends exactly on a tag's X.Y) x 5 implementation/gil settings x every single (python, abi) tag of the stated universe (170 python tags x ~14 ABIs incl. flag combinations m/d/u/t/td, prefix look-alikes such as cp31/cp312, pypy/pyston ABIs) decided exhaustively, plus generated requires_python texts with compressed tag sets; verdict and the first three score components must equal the statement's rule evaluated on the dense interpreter grid X.Y.Z (Z<=40).",
         "Which interpreters requires_python admits is decided by packaging.SpecifierSet, not by dep-logic; grid/interval-ambiguous specs and empty specs refused by from_spec are skipped and counted.",
         "DESIGN.md §5 C08",
     ),
@@ -101,7 +101,7 @@ CHECKS = {
     ),
     "C16": (
         "exhaustive pairs over a configuration grid + Hypothesis requires_python pairs; relational (monotonicity / nesting / compare laws) oracle",
-        "2880 EnvSpecs (24 requires_python x 30 platforms x 4 implementations): all 8.3M ordered pairs for the compare() relations, all same-(platform, implementation) pairs for wheel monotonicity over 176 wheels, all same-family platform release pairs for tag nesting; generated requires_python pairs on top.",
+        "3120 EnvSpecs (26 requires_python x 30 platforms x 4 implementations): all 9.7M ordered pairs for the compare() relations, all same-(platform, implementation) pairs for wheel monotonicity over 176 wheels, all same-family platform release pairs for tag nesting; generated requires_python pairs on top.",
         "Subset of requires_python decided with packaging on final, sub-micro and pre-release probe points; documented platform families only.",
         "DESIGN.md §5 C16",
     ),
